@@ -78,8 +78,14 @@ def main():
         os.makedirs(d, exist_ok=True)
         shutil.copy(diff, os.path.join(d, 'patch.diff')); shutil.copy(demo, os.path.join(d, 'demo.py'))
         m = json.load(open(meta)) if os.path.exists(meta) else {}
+        prev = {}
+        try: prev = json.load(open(os.path.join(d, 'meta.json'))).get('evaluation', {}).get('checks', {})
+        except Exception: pass
         m['evaluation'] = {k2: v for k2, v in res.items() if k2 != 'checks'}
-        m['evaluation']['checks'] = {p: {k2: v for k2, v in c.items() if k2 != 'tail'} for p, c in res.get('checks', {}).items()}
+        m['evaluation']['checks'] = dict(prev, **{p: {k2: v for k2, v in c.items() if k2 != 'tail'} for p, c in res.get('checks', {}).items()})
+        allc = m['evaluation']['checks']
+        m['evaluation']['caught'] = any(c.get('exit') and c.get('violation_lines') for c in allc.values())
+        m['evaluation']['caught_with_input'] = any(c.get('exit') and any('no-failing-input-found' not in v for v in c.get('violation_lines', [])) for c in allc.values())
         m['ran'] = 'tools/mut/eval.py %s %s (scratch worktree of /repo, VERIF_REPO=<scratch> ./check %s %s)' % (a.pid, a.outdir, a.pid, a.tier)
         json.dump(m, open(os.path.join(d, 'meta.json'), 'w'), indent=1)
         open(os.path.join(d, 'check_output_tail.txt'), 'w').write('\n\n'.join('== %s\n%s' % (p, c['tail']) for p, c in res.get('checks', {}).items()))
